@@ -350,7 +350,10 @@ def derived_and_separator(ctx):
     schema = schema.replace('<xsd:complexType name="Order.Part">',
                             '<xsd:complexType name="Weight"><xsd:simpleContent><xsd:extension base="x:Color">'
                             '<xsd:attribute name="n" type="xsd:int" default="1"/></xsd:extension></xsd:simpleContent>'
-                            '</xsd:complexType><xsd:complexType name="Box"><xsd:sequence><xsd:element name="w" '
+                            '</xsd:complexType><xsd:complexType name="Bare"><xsd:simpleContent><xsd:extension '
+                            'base="x:Color"/></xsd:simpleContent></xsd:complexType><xsd:complexType name="BareBox">'
+                            '<xsd:sequence><xsd:element name="b" type="x:Bare"/></xsd:sequence></xsd:complexType>'
+                            '<xsd:complexType name="Box"><xsd:sequence><xsd:element name="w" '
                             'type="x:Weight"/><xsd:element name="u"><xsd:simpleType><xsd:restriction base="xsd:string">'
                             '<xsd:enumeration value="a"/><xsd:enumeration value="b"/></xsd:restriction></xsd:simpleType>'
                             '</xsd:element></xsd:sequence></xsd:complexType><xsd:complexType name="Order.Part">', 1)
@@ -361,7 +364,11 @@ def derived_and_separator(ctx):
             ("Short", {"__class__": T + "Short", "red": "red", "green": "green", "blue": "blue"}),
             ("Base", {"__class__": "Base", "a": None, "_k": "7", "_j": "1"}), ("R", r_obj),
             ("Order", {"__class__": "Order", "Part": r_obj}), ("Order.Part", r_obj), ("Weight", w_obj),
-            ("Box", {"__class__": "Box", "w": w_obj, "u": {"__class__": "u"}})]
+            ("Box", {"__class__": "Box", "w": w_obj, "u": {"__class__": "u"}}),
+            # ... also when the extension adds no attribute at all: the text value is what the type holds
+            ("Bare", {"__class__": "Bare", "value": None}),
+            ("BareBox", {"__class__": "BareBox", "b": {"__class__": "Bare", "value": None}}),
+            ("BareBox.b", {"__class__": "Bare", "value": None})]
     after = [("Order.Part", {"__class__": "Order.Part", "p": None}), ("Order/Part", r_obj),
              ("Order", {"__class__": "Order", "Part": r_obj})]
     for phase, names in (("separator '.'", want), ("separator '/'", after)):
